@@ -329,7 +329,7 @@ def h_prog(ctx, pname, D, P, route='replay'):
             ctx.eq(lhs, rhs, 'adjoint identity order %d dir %d' % (k, p))
     # a second sweep after the same forward evaluation (row-by-row Jacobian assembly) sees the
     # same forward values and returns the same adjoint
-    if pullback_guard(ctx, algopy, cg, [ybar], what='second pullback'):
+    if 'slow' not in prog.tags and pullback_guard(ctx, algopy, cg, [ybar], what='second pullback'):     # (3x3 LU: the normal form of the repeated adjoint is too large)
         ctx.eq(plain(fx.xbar.data), XB, 'second sweep with the same seed == first sweep')
         ctx.eq(plain(fy.x.data), Y, 'forward value of the output after two sweeps')
 
